@@ -116,10 +116,10 @@ func c18Once(ast func() types.MalType, plan c03Plan, cmd func(i int) debuggertyp
 	h := &Harness{S: s, Canon: canon03}
 	e := NewEnv()
 	h.Install(e)
-	rt := &c03Rt{fired: map[string]int{}, plan: plan, rawPanicOK: map[int]bool{}}
-	call.CallOverrideFN(e, "probe!", func(i int) (types.MalType, error) { return rt.probe(i, false) })
+	rt := &c03Rt{fired: map[string]int{}, plan: plan, rawPanicOK: map[int]bool{}, bodyOnly: map[int]bool{}}
+	call.CallOverrideFN(e, "probe!", func(ctx context.Context, i int) (types.MalType, error) { return rt.probe(ctx, i, false) })
 	e.Set(types.Symbol{Val: "probe-raw!"}, types.Func{Fn: func(ctx context.Context, a []types.MalType) (types.MalType, error) {
-		return rt.probe(a[0].(int), true)
+		return rt.probe(ctx, a[0].(int), true)
 	}})
 	if _, err := lisp.EVAL(context.Background(), mustRead(c03Setup), e); err != nil {
 		panic("c18 setup: " + err.Error())
@@ -181,7 +181,7 @@ func (c18) Run(tp *Tape, opt RunOpt) *RunOut {
 		root := g.try(0, false)
 		src = "(let [r " + root.render() + "] (list r e))"
 		if g.sites > 0 && tp.Chance(LaneWork, 2, 3) {
-			plan[1+tp.Draw(LaneWork, g.sites)] = c03Faults[1+tp.Draw(LaneWork, len(c03Faults)-1)]
+			plan[1+tp.Draw(LaneWork, g.sites)] = c03Faults[1+tp.Draw(LaneWork, len(c03Faults)-2)] // not budget-timeout: no deadline here
 		}
 		out.Stats["programs:try-nest"]++
 	} else {
